@@ -191,6 +191,21 @@ def run(ctx: Ctx) -> Outcome:
     outside += [-1, -5, 118, 119, 200, 10**9, -(10**6)]
     outside += ["-1", "118", "200", "1.0", "1.", "1e0", "0x1", "4He", "84Kr", "2H", "He100", "H8", "Kr300", "X1", "C_sp3", "Ca_", "H-1", "", " ", "He 4", "H e"]
     outside += ["cat", "dog", "Xx", "Qq", "Jj", "Hydrogenn", "Hydroge", "Uut", "Uup", "Uus", "Dummyx"]
+    # valid labels wrapped in whitespace are NOT names of a species (only integer text is stripped, by int())
+    padded_src = [sym for _, sym, _ in elements] + [nm for _, _, nm in elements] + rng.sample(labels, min(len(labels), ctx.scale(400, 3470)))
+    for lab in padded_src:
+        pad = rng.choice([" {}", "{} ", "\t{}", "{}\n", " {} ", "{}\t "])
+        outside.append(pad.format(mixed(rng, lab)))
+    # zero-padded / re-spelled mass numbers of valid nuclide labels denote no tabulated species ('He04', 'KR084', 'H+1')
+    for lab in rng.sample(labels, min(len(labels), ctx.scale(500, 3470))):
+        mm = re.fullmatch(r"([A-Za-z]+)(\d+)", lab)
+        if mm:
+            sym_, a_ = mm.group(1), mm.group(2)
+            outside.append(mixed(rng, sym_) + rng.choice(["0", "00"]) + a_)
+            if rng.random() < 0.3:
+                outside.append(sym_ + rng.choice(["+", "_", " ", "-"]) + a_)
+    # decimal spellings of valid atomic numbers
+    outside += [f"{z}.0" for z in range(0, 118, 7)] + [f"{z}." for z in (1, 2, 36)]
     known = {s.lower() for s in pt.EA} | {n.lower() for n in pt.name}
     letters = "abcdefghijklmnopqrstuvwxyz"
     for n in (1, 2):
